@@ -1326,6 +1326,27 @@ impl Sim {
         drop(fut);
     }
 
+    /// Run a blocking (sync API) call on a helper OS thread. Returns once the helper's
+    /// ActorMessage has been enqueued, so the schedule stays decided by the simulator.
+    pub fn sync_call<R: Send + 'static>(
+        &self,
+        host: HostId,
+        f: impl FnOnce(Dht) -> R + Send + 'static,
+    ) -> Option<std::thread::JoinHandle<R>> {
+        let dht = self.dht(host)?.as_sync().clone();
+        let before = dht.verif_queue_len();
+        let probe = dht.clone();
+        let handle = std::thread::spawn(move || f(dht));
+        let t0 = std::time::Instant::now();
+        while probe.verif_queue_len() <= before && !handle.is_finished() {
+            std::thread::yield_now();
+            if t0.elapsed().as_secs() > 10 {
+                break;
+            }
+        }
+        Some(handle)
+    }
+
     // ---------------------------------------------------------- event loop
 
     /// Process the next event if it is due at or before `limit`. Returns false if none.
